@@ -53,3 +53,109 @@ Definition allowed (cp : bool) (req : path) (x : path * wkind) : bool :=
 (* a case: the copy= literal read from tree.py, the requested class, the observed writes *)
 Definition check_case (c : bool * path * list (path * wkind)) : bool :=
   let '(cp, req, ws) := c in forallb (allowed cp req) ws.
+
+(* ==== the fields of parsed-tree objects that a request writes even with copy-on-lookup ==========
+   They are kept beside the tree (`xmap`: class path -> ext) so that Lib/ObjGraph's cdata stays
+   what the AST edit API changes. *)
+Record csym := CSym {
+  c_name : nat;            (* Symbol.name: reset from the dict key before it is read (tree.py flatten_symbols) *)
+  c_val : nat;             (* Symbol.value *)
+  c_pend : option nat      (* the symbol's own pending value modification (class_modification) *)
+}.
+Record ext := Ext {
+  stars : list path;               (* imports['*'].components: packages imported unqualified *)
+  memo : list (key * path);        (* imports[name] written by _find_class (ast.py:681) *)
+  consts : list (key * csym);      (* constant symbols of the class *)
+  arghook : bool                   (* a ClassModificationArgument of the class carries `__deepcopy__`
+                                      bound to itself (ast.py:581-587): never redirects a copy; no query reads it *)
+}.
+Definition xmap := list (path * ext).
+Definition xget (xm : xmap) (p : path) : ext :=
+  match assoc p xm with Some e => e | None => Ext [] [] [] false end.
+Definition xset (xm : xmap) (p : path) (e : ext) : xmap := (p, e) :: xm.
+
+Fixpoint kassoc {B} (k : key) (l : list (key * B)) : option B :=
+  match l with
+  | [] => None
+  | (k', v) :: l' => if Nat.eqb k k' then Some v else kassoc k l'
+  end.
+
+Definition exists_cls (t : tree) (q : path) : bool := is_some (assoc q t).
+
+(* ast.py:667-680: every unqualified-import package is tried, the last hit wins *)
+Fixpoint star_search (t : tree) (pkgs : list path) (k : key) (acc : option path) : option path :=
+  match pkgs with
+  | [] => acc
+  | pk :: pkgs' => star_search t pkgs' k (if exists_cls t (pk ++ [k]) then Some (pk ++ [k]) else acc)
+  end.
+
+(* ast.py:629-693 _find_class for a simple name k, started at the class whose REVERSED path is rp
+   (so the parent is the tail): own classes, then the import memo, then the unqualified imports,
+   then the parent.  Import packages are named by their path from the root. *)
+Fixpoint find (t : tree) (xm : xmap) (rp : list key) (k : key) : option path :=
+  let p := rev rp in
+  if exists_cls t (p ++ [k]) then Some (p ++ [k])                         (* ast.py:643-645 *)
+  else
+    let up := match rp with [] => None | _ :: rp' => find t xm rp' k end in   (* ast.py:688-690 *)
+    match kassoc k (memo (xget xm p)) with
+    | Some q => if exists_cls t q then Some q else up                     (* ast.py:650-663 *)
+    | None => match star_search t (stars (xget xm p)) k None with        (* ast.py:665-683 *)
+              | Some q => Some q
+              | None => up
+              end
+    end.
+
+(* effective value of a constant: pending modification if any, else the value (tree.py modify_symbol) *)
+Definition eff (c : csym) : nat := match c_pend c with Some v => v | None => c_val c end.
+Definition const_eff (xm : xmap) (p : path) (s : key) : option nat :=
+  match kassoc s (consts (xget xm p)) with Some c => Some (eff c) | None => None end.
+
+(* a request = a program that reads the parsed tree ONLY through these queries (class lookup, effective
+   value of a constant, content of a class) — the modelling assumption that replaces the premise
+   "neutral writes do not change results" *)
+Inductive prog (R : Type) : Type :=
+| Ret (r : R)
+| AskFind (rp : list key) (k : key) (cont : option path -> prog R)
+| AskConst (p : path) (s : key) (cont : option nat -> prog R)
+| AskData (p : path) (cont : option cdata -> prog R).
+Arguments Ret {R}. Arguments AskFind {R}. Arguments AskConst {R}. Arguments AskData {R}.
+
+Fixpoint exec {R} (pr : prog R) (t : tree) (xm : xmap) : R :=
+  match pr with
+  | Ret r => r
+  | AskFind rp k c => exec (c (find t xm rp k)) t xm
+  | AskConst p s c => exec (c (const_eff xm p s)) t xm
+  | AskData p c => exec (c (option_map dat (assoc p t))) t xm
+  end.
+
+(* the three exact writes *)
+Inductive nstep (t : tree) : xmap -> xmap -> Prop :=
+| NS_memo xm p k q :                      (* found through the unqualified imports: cached (after 01ccba4: the reference FOUND) *)
+    star_search t (stars (xget xm p)) k None = Some q ->
+    nstep t xm (xset xm p (Ext (stars (xget xm p)) ((k, q) :: memo (xget xm p)) (consts (xget xm p)) (arghook (xget xm p))))
+| NS_const xm p s c nm :                  (* a referenced constant: renamed, modification applied and cleared *)
+    kassoc s (consts (xget xm p)) = Some c ->
+    nstep t xm (xset xm p (Ext (stars (xget xm p)) (memo (xget xm p)) ((s, CSym nm (eff c) None) :: consts (xget xm p)) (arghook (xget xm p))))
+| NS_arg xm p :                           (* an argument copied by deepcopy keeps a self-bound hook *)
+    nstep t xm (xset xm p (Ext (stars (xget xm p)) (memo (xget xm p)) (consts (xget xm p)) true)).
+
+Inductive nstar (t : tree) : xmap -> xmap -> Prop :=
+| nstar_refl xm : nstar t xm xm
+| nstar_step xm1 xm2 xm3 : nstep t xm1 xm2 -> nstar t xm2 xm3 -> nstar t xm1 xm3.
+
+(* ---- executable check of the lookup model against the real _find_class ---- *)
+Definition opath_eqb (a b : option path) : bool :=
+  match a, b with
+  | Some x, Some y => if path_dec x y then true else false
+  | None, None => true
+  | _, _ => false
+  end.
+Definition memo_soundb (t : tree) (xm : xmap) : bool :=
+  forallb (fun pe => forallb (fun kq => opath_eqb (star_search t (stars (snd pe)) (fst kq) None) (Some (snd kq)))
+                             (memo (snd pe))) xm.
+(* case: class paths of the tree, the imports (stars + memo) as they are before the query, queries
+   (reversed start path, name, class the real _find_class returned) *)
+Definition check_find (c : list path * xmap * list (list key * key * option path)) : bool :=
+  let '(ps, xm, qs) := c in
+  let t := map (fun p => (p, Info (CD [] 0) None None)) ps in
+  memo_soundb t xm && forallb (fun q => opath_eqb (find t xm (fst (fst q)) (snd (fst q))) (snd q)) qs.
